@@ -22,6 +22,14 @@ def window_scripts():
                  {"name": "c2", "ops": [{"after": "GateHeld", "do": "newsink", "num": 4}, {"at": 0, "do": "accept", "stamp": 1}, {"at": 0, "do": "close"}]},
                  {"name": "r", "ops": [{"after": "c1.accept.1", "do": "reload", "kind": "ok"}]}]
         out.append({"id": "reload-held-at-%s" % gate.split(".")[-1], "seed": 1, "procs": procs, "holds": [{"gate": gate, "nth": 1, "until": "c1.accept.2"} if gate == "rl.reload.initiated" else {"gate": gate, "nth": 1, "sleepMs": 15}]})
+    # a downstream call in progress (slow final flush of a closing sink, slow accept: a busy pipeline) overlaps a reload:
+    # the reload has to wait for it; nothing may reach the old generation after its shutdown
+    for gate, nth in (("d.close", 1), ("d.accept", 2)):
+        for kind in ("ok", "invalid"):
+            procs = [conn("c1", 3, extra=[{"at": 0, "do": "accept", "stamp": 2}]),
+                     {"name": "c2", "ops": [{"at": 0, "do": "newsink", "num": 4}, {"at": 0, "do": "accept", "stamp": 1}, {"after": "ReloadEnd", "do": "accept", "stamp": 2}, {"at": 0, "do": "close"}]},
+                     {"name": "r", "ops": [{"after": "GateHeld", "do": "reload", "kind": kind}]}]
+            out.append({"id": "downstream-slow-%s-%s" % (gate.split(".")[1], kind), "seed": 1, "procs": procs, "holds": [{"gate": gate, "nth": nth, "sleepMs": 25}]})
     return out
 
 
@@ -67,6 +75,13 @@ def run(chk):
         raise vlib.Inconclusive("spec-level counterexample:\n" + r.get("counterexample", "")[:3000])
     cov["states"], cov["transitions"] = r.get("distinct", 0), r.get("generated", 0)
     cov["mc_runs"] = [{"cfg": r["cfg"], "distinct": r.get("distinct"), "ok": True}]
+    # negative controls: each of the three unsafe orders (sink created outside the lock, socket released before the sink is
+    # closed, downstream Close outside the lock) has to be refuted by TLC, otherwise Safe says nothing about them
+    for neg in ("Reload_neg_newsink.cfg", "Reload_neg_closeorder.cfg", "Reload_neg_closelock.cfg"):
+        rn = chk.tlc_mc("Reload", neg, timeout=600)
+        if rn["ok"]:
+            raise vlib.Inconclusive("Reload.tla: negative control %s was not refuted" % neg)
+        cov["mc_runs"].append({"cfg": neg, "distinct": rn.get("distinct"), "ok": False, "expected": "refuted"})
     rnd = random.Random(chk.seed)
     chk.build_vh()
     d = chk.sub("rl")
